@@ -242,6 +242,15 @@ func (a *Analyzer) onRPC(n *nodeState, r *ev.Rec) {
 			}
 		}
 	case "append", "installSnap", "timeoutNow":
+		if r.RPC == "timeoutNow" {
+			a.stat("timeout-now-requests-by-term:" + map[bool]string{true: "older", false: "current-or-newer"}[r.ReqTerm < termBefore])
+			if r.Res == "success" && r.ReqTerm < termBefore && hadSt {
+				// C16 / C17: the permission to disrupt belongs to one transfer in
+				// one term; a request from a term that is over gives none
+				a.find("C16", "timeout-now-of-a-past-term-obeyed", "", r.Q, "%s (term %d) obeys a timeout-now request of term %d from %d: it campaigns with the permission to depose a live leader although that transfer is long over", n.key, termBefore, r.ReqTerm, r.Src)
+				a.find("C17", "timeout-now-of-a-past-term-obeyed", "", r.Q, "%s (term %d) obeys a timeout-now request of term %d from %d", n.key, termBefore, r.ReqTerm, r.Src)
+			}
+		}
 		accepted := r.Res != "staleTerm" && r.Res != "readErr" && r.Res != ""
 		if accepted && !a.isWire(r.Src) && !a.Universe {
 			lk := leaderKey{cid, r.ReqTerm}
